@@ -48,7 +48,7 @@ func (r *histRunner) doGCPark(op *Op) error {
 	used := make([]bool, len(op.Places))
 	relocating := "" // key whose record has been copied but not yet repointed (read by the client thread only while GC is parked)
 	handler := func(name string, args ...interface{}) {
-		if len(name) < 3 || name[:3] != "gc." || name == "gc.pass.enter" || name == "gc.pass.exit" || name == "gc.request.checked" {
+		if len(name) < 3 || name[:3] != "gc." || name == "gc.pass.exit" || name == "gc.request.checked" {
 			return
 		}
 		counts[name]++ // only the GC goroutine gets here
@@ -81,6 +81,7 @@ func (r *histRunner) doGCPark(op *Op) error {
 		r.store.gcMgr.gc(bkt, begin, end, op.Merge)
 	}()
 	r.gcPasses++
+	r.afterAnyGCPass()
 	r.label("gc")
 	for running := true; running; {
 		select {
@@ -168,6 +169,11 @@ func genPlacement(t *rapid.T, c *Cfg, p *genProfile) Placement {
 		"gc.rec.hinted", "gc.src.begin", "gc.src.cleared", "gc.dst.switch"}).Draw(t, "point")
 	pl.Nth = rapid.IntRange(1, 6).Draw(t, "nth")
 	pl.Cancel = rapid.IntRange(0, 9).Draw(t, "cancel") == 0
+	if rapid.IntRange(0, 11).Draw(t, "atstart") == 0 {
+		// at the very beginning of the pass (before it has prepared the bucket or opened a destination), mostly to cancel it
+		pl.Point, pl.Nth = "gc.pass.enter", 1
+		pl.Cancel = rapid.IntRange(0, 3).Draw(t, "cancel_at_start") > 0
+	}
 	kinds := []string{"set", "set", "set", "set", "delete", "get", "dumphints", "rotate"}
 	inGrp := make([]bool, len(c.Keys))
 	gen := rapid.Custom(func(t *rapid.T) Op { return genOp(t, c, p, kinds, inGrp) })
